@@ -6,7 +6,7 @@
 (* harness replays each vector through Do, Execute and PlanQuery +         *)
 (* ExecutePlan (plan reuse).  Serves C01, C20 (calls), C18c (paths).       *)
 (***************************************************************************)
-EXTENDS GenDoc, Exec, SchemaS1, Json
+EXTENDS GenDoc, ExecVec
 
 CONSTANTS Fam,          \* family label carried in every vector
           OutTables     \* sequence of outcome tables (each a sequence of [t,f,o])
@@ -79,9 +79,9 @@ FragsF == << [name |-> "F", on |-> "Q"] >>
 OT_AllVal == << <<>> >>
 OT_Abstract ==
   << <<>>,
-     << [t |-> "Q", f |-> "i", o |-> [k |-> "val", rt |-> "B"]],
-        [t |-> "Q", f |-> "u", o |-> [k |-> "val", rt |-> "B"]],
-        [t |-> "Q", f |-> "il", o |-> [k |-> "val", rts |-> <<"B", "A">>]] >> >>
+     << [t |-> "Q", f |-> "i", src |-> "*", o |-> [k |-> "val", rt |-> "B"]],
+        [t |-> "Q", f |-> "u", src |-> "*", o |-> [k |-> "val", rt |-> "B"]],
+        [t |-> "Q", f |-> "il", src |-> "*", o |-> [k |-> "val", rts |-> <<"B", "A">>]] >> >>
 
 \* ------------------------------------------------------------ variables
 BoolNN == TNN(TNamed("Boolean"))
@@ -112,13 +112,7 @@ InputsSeq(f) == LET dom == SetToSeq({ n \in DOMAIN f : f[n] # Absent })
                 IN [i \in 1..Len(dom) |-> [n |-> dom[i], v |-> f[dom[i]]]]
 
 \* ------------------------------------------------------------- vectors
-Devs == {"D_C01_plan_time_directives"}
-
-RunOf(D, f, oi) ==
-  LET e0 == ExecuteOp(S1, D, D.ops[1], InputsOf(f), OutTables[oi], {})
-      e1 == ExecuteOp(S1, D, D.ops[1], InputsOf(f), OutTables[oi], Devs)
-  IN [inputs |-> InputsSeq(f), oi |-> oi, exp |-> e0,
-      dev |-> IF e1 = e0 THEN <<>> ELSE << [d |-> SetToSeq(Devs), exp |-> e1] >>]
+RunOf(D, f, oi) == MkRun(D, D.ops[1], InputsOf(f), InputsSeq(f), OutTables[oi], oi)
 
 Vector ==
   LET D == DocOf(VDefs)
@@ -157,7 +151,7 @@ WellFormedRoot ==
     LET D == DocOf(VDefs) IN
     \A f \in Assignments : \A oi \in 1..Len(OutTables) :
       LET r == ExecuteOp(S1, D, D.ops[1], InputsOf(f), OutTables[oi], {})
-      IN r.data.k \in {"obj", "null"} /\ (r.data.k = "null" => Len(r.errs) > 0)
+      IN WellFormed(EnvOf(D, D.ops[1], InputsOf(f), OutTables[oi]), D.ops[1], r)
 
 ASSUME PrintT(<<"SCHEMA", ToJson(S1)>>)
 
